@@ -268,6 +268,14 @@ XercesParserLiaison::destroyDocument(XalanDocument*     theDocument)
 
     if (i != m_documentMap.end())
     {
+        // If we own the Xerces document, it goes with the wrapper, as
+        // it does in reset()...
+        if ((*i).second.isDeprecated() == false &&
+            (*i).second.isOwned() == true)
+        {
+            delete (*i).second.m_wrapper->getXercesDocument();
+        }
+
         const XalanMemMgrAutoPtr<XalanDocument>     theGuard(
                                                         m_documentMap.getMemoryManager(),
                                                         theDocument);
